@@ -199,11 +199,12 @@ func getValidSSHPublicKey(userPubKey string) (ssh.PublicKey, error, error) {
 	if err != nil {
 		return nil, fmt.Errorf("invalid file, unparseable"), nil
 	}
-	// The next check should never fail, as all of our supported keys are ssh.CryptoPublicKey's but
-	// to prevent potential future panics we check anyway
+	// All of our supported keys are ssh.CryptoPublicKey's; what is not is
+	// something else the client sent under a key's name (the parser goes by
+	// the blob, not by the label: e.g. a whole certificate).
 	cryptoPubKey, ok := userSSH.(ssh.CryptoPublicKey)
 	if !ok {
-		return nil, nil, fmt.Errorf("Cannot transform ssh key into crypto key, inbound=%s", userPubKey)
+		return nil, fmt.Errorf("invalid file, not a plain public key"), nil
 	}
 	validKey, err = certgen.ValidatePublicKeyStrength(cryptoPubKey.CryptoPublicKey())
 	if err != nil {
